@@ -234,6 +234,8 @@ func (ctx *Context) GetCurSeed() ([]byte, error) {
 	if ctx.RandSrc != nil {
 		return ctx.RandSrc.MarshalBinary()
 	}
+	randSourceMu.Lock()
+	defer randSourceMu.Unlock()
 	return randSource.MarshalBinary()
 }
 
